@@ -165,7 +165,7 @@ def _decide(sc, name, records, nshards=None):
 
 
 def _bind(chk, sc):
-    ntrees = 90 if chk.tier == "quick" else 1500
+    ntrees = 90 if chk.tier == "quick" else 600
     t0 = time.time()
     progs = _gen(sc, chk, ntrees, 3 if chk.tier == "quick" else NPROC)
     _dbg("gen: %d programs from %d trees %.1fs" % (len(progs), ntrees, time.time() - t0))
